@@ -58,6 +58,8 @@ PROPS_C15 = {
             "noise_negative_values_projected": 1000,
             "noise_values_beyond_modulus_projected": 1000,
             "noise_real_runs": 300,
+            "noise_independence_pairs_checked": 100,
+            "noise_independence_vectors_checked": 100,
         },
         "technique": "runtime monitoring with layered, outcome-driven path exploration of the real samplers through hook H3 (thread-local interceptor + direct entry points): "
                      "exhaustive scripted Rng tapes for the uniform draw; exhaustive uniform outcomes for Bernoulli(n/d); exact rational mass accounting against Taylor partial sums for Bernoulli(exp(-g)); "
@@ -70,7 +72,7 @@ PROPS_C15 = {
                       "perform exactly the reference's sub-calls with exactly the reference's rational arguments (geometric(1/scale), Bernoulli(1/2), uniform [0,t), exp(-u/t), exp(-1), floor((u+tv)/s), Laplace(t), (|y|-sigma^2/t)^2/(2 sigma^2)) and return the reference's value, never reading the Rng directly; "
                       "best-first enumeration of the real paths weighted by the sub-layers' exact laws brackets P[y] and must contain the closed-form probability (achieved residuals in the evidence: <1e-13 for geometric/Laplace with small t, ~1e-2 for the Gaussian). "
                       "Public samplers on random byte tapes agree with the reference run on the same tape. "
-                      "add_noise_to_agg_share on SumVec/Histogram/L1BoundSum x Field64/Field128 x parameter lattice x epsilon in {1/100,1/3,1,2,100}: exactly one Laplace draw per coordinate in order, scale == documented sensitivity/epsilon as exact rationals, share_after - share_before == noise mod p (floor-mod) for noise 0, +-1, +-(p-1), +-p, +-(p+5), +-2^200, ...; two aggregators with real noise unshard to true aggregate + small integer.",
+                      "add_noise_to_agg_share on SumVec/Histogram/L1BoundSum x Field64/Field128 x parameter lattice x epsilon in {1/100,1/3,1,2,100}: exactly one Laplace draw per coordinate in order, scale == documented sensitivity/epsilon as exact rationals, share_after - share_before == noise mod p (floor-mod) for noise 0, +-1, +-(p-1), +-p, +-(p+5), +-2^200, ...; two aggregators with real noise unshard to true aggregate + small integer, and (whenever the collision probability bound (1/(2 scale))^k is below 2^-64) the two calls' noise vectors must differ and no call may put the same value in every coordinate (independence across calls / coordinates).",
         "level_note": "Exactness is decided exactly only for the loop-free layers (uniform draw for bounds <= 2^12, Bernoulli(n/d) for d <= 4096, Bernoulli(exp(-g)) as exact partial sums). For geometric/Laplace/Gaussian it is conformance to CKS20's algorithms on the explored scripts "
                       "(a defect needing one specific long irregular outcome sequence would be missed) plus mass brackets whose residual is reported, for the listed parameters only. No statistical test is used anywhere. "
                       "Trusted: the harness transcription of CKS20 Alg. 1-3 (c15_model.rs; self-checked against the closed forms to <1e-30), num-bigint/num-rational arithmetic, the interval arithmetic. "
